@@ -1,8 +1,125 @@
-(** Property C07 -- INTERIM statement file: the unbounded theorems for this property are being
-    proved (Proofs/YearlyProofs.v, BalanceProofs.v, FilterProofs.v); it currently pins the
-    constants the model takes from the source. *)
-From RP2V Require Import Base.Prelude Base.Dec Model.Types Model.Generated.
+(** Property C07 -- account balances equal the flows of each account and reconcile with unsold lots.
+
+    Model: [balances allow to_day exs hos t] of Model/Computed.v (balance.py [BalanceSet.__init__]):
+    replay of in + intra + out transactions sorted by instant (stable: ties in / intra / out, then
+    sheet order) = [replay_order t]; the loop [break]s at the first transaction whose local date is
+    after the to-date: [take_until txn_day to_day (replay_order t)] is what it sees.
+    An account is an (exchange, holder) pair (indices into the configured lists; the model encodes it as
+    exchange * 100000 + holder, hence [holders_ok]: holder indices are below 100000).
+    Vocabulary ([acquired_by], [sent_by], [received_by], [acct_touched], [holder_total], [holder_net],
+    [unsold], [outs_consistent], [no_dust_fee], [no_cut]): Model/ComputedSpec.v.
+    Proofs: Proofs/BalanceProofs.v, Proofs/C07Proofs.v, Proofs/ReconcileProofs.v. *)
+From Coq Require Import List ZArith Bool Lia Sorted.
+From RP2V Require Import Base.Prelude Base.Time Base.Dec Model.Types Model.Generated Model.Txn Model.Matcher Model.MatchSpec
+  Model.MatchWf Model.FracSpec Model.Pipeline Model.Computed Model.ComputedSpec
+  Proofs.FilterProofs Proofs.PipelineWf Proofs.C07Proofs Proofs.ReconcileProofs.
+Import ListNotations.
 Open Scope Z_scope.
-Theorem C07_constants : gen_balance_mask_digits = 10 /\ gen_crypto_decimals = 13.
-Proof. split; reflexivity. Qed.
-Print Assumptions C07_constants.
+
+(** "For every (exchange, holder) account the reported acquired, sent, received and final balances equal the sums
+    over that account's transactions up to the to-date ... final = acquired + received - sent; every account
+    touched appears exactly once".  Holds with and without -n ([allow]) whenever a table is produced. *)
+Theorem C07_accounts : forall allow to_day exs hos t bl,
+  holders_ok t ->
+  balances allow to_day exs hos t = Ok bl ->
+  let l := take_until txn_day to_day (replay_order t) in
+  NoDup (map (fun b => (b_exch b, b_holder b)) bl) /\
+  (forall ex ho, holder_ok ho ->
+     ((exists b, In b bl /\ b_exch b = ex /\ b_holder b = ho) <-> (exists x, In x l /\ acct_touched ex ho x = true))) /\
+  (forall b, In b bl ->
+     b_acquired b = sumZ (map (acquired_by (b_exch b) (b_holder b)) l) /\
+     b_sent b = sumZ (map (sent_by (b_exch b) (b_holder b)) l) /\
+     b_received b = sumZ (map (received_by (b_exch b) (b_holder b)) l) /\
+     b_final b = b_acquired b + b_received b - b_sent b).
+Proof. exact c07_accounts. Qed.
+
+(** "acquired = crypto received from in-transactions, sent = outgoing amounts plus fees and transfers sent,
+    received = transfers received", table by table, "up to the to-date" being the date filter: when local
+    dates are monotone in time ([day_sorted]; finding F9 otherwise, see C10_to_date_refuted) *)
+Theorem C07_flows_by_table : forall allow to_day exs hos t bl,
+  holders_ok t -> day_sorted txn_day (replay_order t) ->
+  balances allow to_day exs hos t = Ok bl ->
+  forall b, In b bl ->
+    let mine ex' ho' := same_acct ex' ho' (b_exch b) (b_holder b) in
+    b_acquired b = sumZ (map i_crypto_in (filter (fun a => mine (i_exch a) (i_holder a) && (in_day a <=? to_day)) (t_ins t))) /\
+    b_sent b = sumZ (map (fun a => o_crypto_out_no_fee a + o_crypto_fee a)
+                         (filter (fun a => mine (o_exch a) (o_holder a) && (out_day a <=? to_day)) (t_outs t))) +
+               sumZ (map x_crypto_sent (filter (fun a => mine (x_from_exch a) (x_from_holder a) && (intra_day a <=? to_day)) (t_intras t))) /\
+    b_received b = sumZ (map x_crypto_received (filter (fun a => mine (x_to_exch a) (x_to_holder a) && (intra_day a <=? to_day)) (t_intras t))) /\
+    b_final b = b_acquired b + b_received b - b_sent b.
+Proof. exact c07_flows_by_table. Qed.
+
+(** "per-holder totals add up": the total of a holder (sum of the final balances of that holder's accounts) is
+    the net flow of that holder over all exchanges (transfers between the holder's own accounts cancel except
+    for the fee), and the holders' totals add up to the grand total *)
+Theorem C07_holder_totals : forall allow to_day exs hos t bl,
+  holders_ok t ->
+  balances allow to_day exs hos t = Ok bl ->
+  forall ho, holder_total ho bl = sumZ (map (holder_net ho) (take_until txn_day to_day (replay_order t))).
+Proof. exact c07_holder_totals. Qed.
+
+Theorem C07_holders_add_up : forall (bl : list balance) (holders : list Z),
+  NoDup holders -> (forall b, In b bl -> In (b_holder b) holders) ->
+  sumZ (map b_final bl) = sumZ (map (fun ho => holder_total ho bl) holders).
+Proof. exact c07_holders_add_up. Qed.
+
+(** "The sum of all final balances equals the total amount the tax computation leaves unconsumed in lots."
+    [unsold lots fs] = sum over the lots of (crypto_in - amount of the fractions taken from that lot).
+    Hypotheses that the code forces: the matcher input is well-formed ([wf], established by
+    [pipeline_wf] for histories that went through the constructors -- see the next theorem) and the
+    matcher run succeeds; no to-date cut ([no_cut]: the tax computation always covers the whole history);
+    a supplied crypto_out_with_fee column equals amount + fee ([outs_consistent]; otherwise refuted:
+    C07_reconciliation_needs_consistent_outs); the transfer fee is sent - received ([intras_consistent],
+    guaranteed by the constructor); no transfer fee whose fiat value vanishes at 13 decimals
+    ([no_dust_fee]; otherwise refuted, finding F8: C07_reconciliation_dust_refuted). *)
+Theorem C07_reconciliation : forall allow to_day exs hos sched t fs bl,
+  fractions_of gen_always_repush sched t = Ok fs ->
+  (forall evs, taxable_events t = Ok evs -> wf (t_ins t) sched (map event_of evs)) ->
+  outs_consistent t -> intras_consistent t -> no_dust_fee t -> no_cut to_day t ->
+  balances allow to_day exs hos t = Ok bl ->
+  sumZ (map b_final bl) = unsold (t_ins t) fs.
+Proof. exact c07_reconciliation. Qed.
+
+(** the same end to end, from the raw rows: constructors ([build]), taxable events, matcher, balances *)
+Theorem C07_reconciliation_from_rows : forall allow to_day exs hos sched h t fs bl,
+  build h = Ok t ->
+  in_rows_increasing h -> amounts_positive h -> NoDup (map fst sched) ->
+  (forall evs, taxable_events t = Ok evs -> hist_same_instant_same_year evs /\ hist_sched_covers sched evs) ->
+  fractions_of gen_always_repush sched t = Ok fs ->
+  outs_consistent t -> no_dust_fee t -> no_cut to_day t ->
+  balances allow to_day exs hos t = Ok bl ->
+  sumZ (map b_final bl) = unsold (t_ins t) fs.
+Proof. exact c07_reconciliation_hist. Qed.
+
+(** [unsold] is the sum of the per-lot remainders of property C02 ([rem_after]) *)
+Theorem C07_unsold_is_sum_of_remainders : forall lots fs,
+  unsold lots fs = sumZ (map (rem_after lots fs) (seq 0 (length lots))).
+Proof. exact unsold_rem_after. Qed.
+
+(** finding F8: with a dust transfer fee every other hypothesis holds and the balances are 1e-11 short of the lots *)
+Theorem C07_reconciliation_dust_refuted : exists h sched t fs bl,
+  build h = Ok t /\ fractions_of gen_always_repush sched t = Ok fs /\ balances false 100000 [[69; 48]; [69; 49]] [[72; 48]; [72; 49]] t = Ok bl /\
+  outs_consistent t /\ intras_consistent t /\ no_cut 100000 t /\
+  sumZ (map b_final bl) = unsold (t_ins t) fs - 1.
+Proof. exact c07_reconciliation_dust_refuted. Qed.
+
+Theorem C07_reconciliation_needs_consistent_outs : exists h sched t fs bl,
+  build h = Ok t /\ fractions_of gen_always_repush sched t = Ok fs /\ balances false 100000 [[69; 48]; [69; 49]] [[72; 48]; [72; 49]] t = Ok bl /\
+  no_dust_fee t /\ no_cut 100000 t /\ sumZ (map b_final bl) <> unsold (t_ins t) fs.
+Proof. exact c07_reconciliation_needs_consistent_outs. Qed.
+
+(** Non-vacuity (Proofs/ReconcileProofs.v, history A of Proofs/L4Examples.v: two exchanges, two holders, a
+    fee-bearing transfer, income, eight transactions): [tA_holders_ok], [tA_balances] (three accounts),
+    [hA_rows_increasing], [hA_amounts_positive], [hA_events_ok], [tA_outs_consistent], [tA_no_dust], [tA_no_cut]
+    establish every hypothesis; [c07_reconciliation_instance] is C07_reconciliation_from_rows applied to it
+    (both sides 2.8 coins: [c07_reconciliation_value], holder totals 1.8 and 1). *)
+
+Print Assumptions C07_accounts.
+Print Assumptions C07_flows_by_table.
+Print Assumptions C07_holder_totals.
+Print Assumptions C07_holders_add_up.
+Print Assumptions C07_reconciliation.
+Print Assumptions C07_reconciliation_from_rows.
+Print Assumptions C07_unsold_is_sum_of_remainders.
+Print Assumptions C07_reconciliation_dust_refuted.
+Print Assumptions C07_reconciliation_needs_consistent_outs.
